@@ -852,6 +852,32 @@ func init() {
 			return labels, nt
 		},
 	})
+	registerReplayer("C09", func(f oracleFailure) (string, bool) {
+		if f.Case == "" {
+			return "free-running concurrent run (" + f.Signature + "): not replayable as a script; re-run bin/check (detail: " + fmt.Sprint(f.Detail) + ")", false
+		}
+		c, err := parseSx(f.Case)
+		if err != nil {
+			return "bad case", false
+		}
+		sc, err := parseStreamScript(c)
+		if err != nil {
+			return "bad case", false
+		}
+		out, _ := runStreamScript(sc)
+		text := "case:     " + f.Case + "\nobserved: " + out + "\n"
+		again := false
+		for _, jf := range judgeFresh(sc) {
+			text += "FAILS " + jf[0] + " at step " + jf[2] + ": " + jf[1] + "\n"
+			if jf[0] == f.Signature {
+				again = true
+			}
+		}
+		if !again {
+			text += "the recorded failure " + f.Signature + " does not recur\n"
+		}
+		return text, again
+	})
 	registerOracle(&oracle{prop: "C09", name: "delivery", run: oracleC09Delivery})
 	registerOracle(&oracle{prop: "C09", name: "concurrent", run: oracleC09Concurrent})
 }
@@ -888,14 +914,14 @@ func oInvalidates(scope []string, e histEv) bool {
 }
 
 type oStream struct {
-	scope      []string
-	open       bool // Watch succeeded
-	pos        int  // events hist[0:pos] are behind the stream (delivered, out of scope, or before its start)
-	anchored   bool // the stream holds a reference event that is (was) part of the oplog
-	expectInv  bool
-	ended      string // "", INVALIDATE, LOST, CLOSE, ERR
-	lastRank   int
-	delivered  []int
+	scope     []string
+	open      bool // Watch succeeded
+	pos       int  // events hist[0:pos] are behind the stream (delivered, out of scope, or before its start)
+	anchored  bool // the stream holds a reference event that is (was) part of the oplog
+	expectInv bool
+	ended     string // "", INVALIDATE, LOST, CLOSE, ERR
+	lastRank  int
+	delivered []int
 }
 
 // judgeStreamTrace replays the black-box trace of a script and returns the
